@@ -86,6 +86,7 @@ func main() {
 			}
 		case "--child":
 			ctx.Child = append([]string{}, args[i+1:]...)
+			isChildProcess = true
 			i = len(args)
 		default:
 			fmt.Fprintf(os.Stderr, "unknown argument %q\n", args[i])
